@@ -175,6 +175,8 @@ impl SlabRouter {
         match Self::classify_key(key) {
             KeyClass::Embedding => {
                 let entity_id = self.index.get_or_create(key);
+                #[cfg(neumann_verif)]
+                crate::verif::yield_point("router.put.emb.after_index", key);
                 // Extract vector from TensorValue if present
                 if let Some(TensorValue::Vector(vec)) = value.get("_embedding") {
                     // Try to store in embedding slab; if dimension mismatch, just use metadata
@@ -182,6 +184,8 @@ impl SlabRouter {
                         // Dimension mismatch - store in metadata only (this is fine)
                     }
                 }
+                #[cfg(neumann_verif)]
+                crate::verif::yield_point("router.put.emb.after_vector", key);
                 // Also store metadata (always includes the embedding for retrieval)
                 self.metadata.set(key, value);
                 Ok(())
@@ -220,7 +224,11 @@ impl SlabRouter {
         match Self::classify_key(key) {
             KeyClass::Embedding => {
                 if let Some(entity_id) = self.index.get(key) {
+                    #[cfg(neumann_verif)]
+                    crate::verif::yield_point("router.get.emb.after_index", key);
                     if let Some(vector) = self.embeddings.get(entity_id) {
+                        #[cfg(neumann_verif)]
+                        crate::verif::yield_point("router.get.emb.after_vector", key);
                         let mut data = self.metadata.get(key).unwrap_or_default();
                         data.set("_embedding", TensorValue::Vector(vector));
                         return Ok(data);
@@ -259,7 +267,11 @@ impl SlabRouter {
                 if let Some(entity_id) = self.index.get(key) {
                     self.embeddings.delete(entity_id);
                 }
+                #[cfg(neumann_verif)]
+                crate::verif::yield_point("router.delete.emb.after_vector", key);
                 self.index.remove(key);
+                #[cfg(neumann_verif)]
+                crate::verif::yield_point("router.delete.emb.after_index", key);
                 self.metadata.delete(key);
                 Ok(())
             },
@@ -500,6 +512,8 @@ impl SlabRouter {
         }
 
         // Apply to in-memory state
+        #[cfg(neumann_verif)]
+        crate::verif::yield_point("router.put_durable.after_log", key);
         self.put(key, value)
     }
 
@@ -542,6 +556,8 @@ impl SlabRouter {
         }
 
         // Apply to in-memory state
+        #[cfg(neumann_verif)]
+        crate::verif::yield_point("router.delete_durable.after_log", key);
         self.delete(key)
     }
 
